@@ -22,14 +22,6 @@ use unicode_segmentation::UnicodeSegmentation;
 
 const FUEL: usize = 400;
 
-/// Findings whose entry in known_findings.json has status "fixed": the generator then produces the
-/// formerly avoided shape again, so the fix is checked from then on (bit 1: F-C13-2 copies of
-/// pipelines containing peekable, bit 2: F-C13-3 copies over @next objects). F-C13-1 (bit 0) and
-/// F-C13-4 need no switch: the model mirrors the repaired code and the shapes are always generated.
-static FIXED: std::sync::atomic::AtomicU8 = std::sync::atomic::AtomicU8::new(0);
-fn is_fixed(bit: u8) -> bool {
-    FIXED.load(std::sync::atomic::Ordering::Relaxed) & (1 << bit) != 0
-}
 
 // ------------------------------------------------------------------------------------------------
 // values
@@ -812,16 +804,8 @@ fn admissible(p: &Pipe, c: &Cons) -> bool {
         // never passes `next_back` on to a forward-only iterator.
         return false;
     }
-    if c.is_copy() {
-        // shapes of the listed findings (sources whose position lives in a shared Koto map: F-C13-3;
-        // Peekable's copy: F-C13-2): not generated for copy cases unless the finding is fixed
-        if !is_fixed(1) && (p.any(&|q| matches!(q, Pipe::Peekable(_))) || matches!(c, Cons::PeekCopy(..))) {
-            return false;
-        }
-        if !is_fixed(2) && p.has_src(&|s| matches!(s, Src::Obj(_) | Src::ObjB(_))) {
-            return false;
-        }
-    }
+    // copies: every shape is generated (F-C13-2 Peekable copies and F-C13-3 copies over @next objects are
+    // repaired in /repo and covered like everything else)
     true
 }
 
@@ -1280,11 +1264,7 @@ impl Ctx {
         if k_ok && d_problem.is_none() {
             return;
         }
-        // attribution to a listed finding: narrow cause rules
-        if k_ok && c.host_bytes_back && self.open.iter().any(|x| x == "F-C13-1") && d_problem.as_deref().is_some_and(|d| d.starts_with("result")) {
-            *self.known_counts.entry("F-C13-1".into()).or_insert(0) += 1;
-            return;
-        }
+        // no listed finding is open: every deviation is a violation
         if !k_ok {
             self.k_fail += 1;
         }
@@ -1344,18 +1324,6 @@ fn main() {
     rep.rule = "case = (pipeline, consumer); pipelines: every adaptor instance (all callbacks, numeric parameters 0..4) at depth 1 and every ordered pair at depth 2 over every source kind and every source length 0..L (L=3 quick, 5 thorough), every consumer on every source kind/length/element flavour, plus seeded random pipelines of depth 1..4; distinct = distinct request lines; non-trivial = at least one adaptor and a non-empty source".into();
     let open: Vec<String> =
         rep.known_open().iter().filter_map(|e| e.get("id").and_then(|x| x.as_str()).map(|s| s.to_string())).collect();
-    let mut fixed = 0u8;
-    for e in rep.known_entries() {
-        if e.get("status").and_then(|x| x.as_str()) == Some("fixed") {
-            match e.get("id").and_then(|x| x.as_str()) {
-                Some("F-C13-1") => fixed |= 1,
-                Some("F-C13-2") => fixed |= 2,
-                Some("F-C13-3") => fixed |= 4,
-                _ => {}
-            }
-        }
-    }
-    FIXED.store(fixed, std::sync::atomic::Ordering::Relaxed);
     let drv = Driver::spawn(&args.driver);
     let mut cx = Ctx {
         rep,
